@@ -121,6 +121,7 @@ func checkC04(c *ctx) {
 		o := zh.RandOpts(c.R, c.R.Intn(12), "d")
 		o.BigVals = c.R.Chance(15)
 		o.LongIDs = c.R.Chance(5)
+		o.HugeIDs = true
 		b := zh.GenBatch(c.R, o)
 		if c.R.Chance(4) {
 			b = zh.AddSynDocs(c.R, b, "d")
